@@ -1,6 +1,7 @@
 """C04 — strict decoding accepts exactly schema-conforming messages."""
 from ..facts import Program, AnalysisBroken
 from .. import q
+from . import c02
 from . import c07
 
 CLAIM = {
@@ -93,6 +94,12 @@ def tag_rule(ctx, prog, RID):
                 holder = holder.parent
             ctx.need(holder is not None, fq + ': wide tag value is not kept in a local')
             wide = [dd for dd, ii in holder.r['decls'] if ii >= 0 and c in list(f.node(ii).walk())][0]
+            # the parser's full-width result must reach the range test: the local that keeps it is as wide as what the parser returns
+            wt = f.tu.types[f.tu.decls[wide]['t']]
+            ctx.check(wt.get('k') == 'int' and wt.get('bits', 0) >= rt.get('bits', 64), RID, '%s#tag-wide-kept@%d' % (fq, i), c.loc,
+                      'the %d-bit result of %s is kept in a %d-bit local until it is range-tested' % (rt.get('bits', 64), c.callee_qp, wt.get('bits', 0)),
+                      'the %d-bit result of %s is stored into the %d-bit local `%s` before the <= 65535 test: the upper bits are dropped first, so tag %d passes the '
+                      'test and is taken for tag 112' % (rt.get('bits', 64), c.callee_qp, wt.get('bits', 0), f.tu.decls[wide]['n'], (1 << wt.get('bits', 32)) + 112))
             narrow = []
             for n in f.all_nodes():
                 if n.k in ('ImplicitCastExpr', 'CXXStaticCastExpr', 'CStyleCastExpr', 'CXXFunctionalCastExpr') and n.type and n.type.get('k') == 'int' and n.type.get('bits', 64) <= 16:
@@ -232,6 +239,9 @@ def run(ctx):
         lf = q.linear(ck[0].args[-1], sym=lambda x: 'SIZE' if (x.is_call and x.callee is not None and x.callee.get('n') == 'size') else x.text())
         okr = lf.t == {'SIZE': 1} and lf.c == -7 and ck[0].args[1].strip(casts=True).value == 0
     ctx.check(okr, 'R04.3', M + 'factory#checksum.range', fac.loc, 'the CheckSum is verified over bytes [0, size − 7)')
+    # ---------------- R04.6 the position index keeps every field of a section: a strictly decoded message whose trailer carries SignatureLength/Signature
+    # numbers them 2 and 3, and the generated trailer already holds CheckSum at 3 (rule of C02 R02.5 / C01 R01.6: the index is a multimap)
+    c02.pos_type_rule(ctx, prog, 'R04.6')
     # ---------------- R04.4
     for fq in (MB + 'decode', MB + 'decode_group'):
         f = prog.fn1(fq)
